@@ -6,6 +6,7 @@ X01  BackgroundTask  (mpservice/background_task.py): the task catalog with share
      promises the as-found design does not keep are refuted in the model as documented observations (DESIGN.md 11.9).
 
 X02  ProcessRunner  (mpservice/multiprocessing/runner.py): instruction queue, one-slot result queue, the long-lived worker object.
+X03  SharedPools    (mpservice/concurrent/futures: get_shared_thread_pool): the weak-valued registry of named executors.
 """
 from __future__ import annotations
 
@@ -111,3 +112,27 @@ def x02(ck, replay=None):
     ck.finish_rc = ck.finish(rule='the k-th rejoin() returns / raises the outcome of the k-th restart(), computed by the one long-lived '
                              'object (its own call counter), exceptions arrive as remote exceptions; after join() the process has '
                              'ended with exit code 0 and the object was entered and exited exactly once')
+
+
+def sp_cfg(invariants=(), names=('x', 'y'), maxobj=3, maxrefs=2):
+    return tlc.cfg_text(spec='Spec', constants=dict(Names=set(names), Sizes={1, 2}, MaxObj=maxobj, MaxRefs=maxrefs),
+                        invariants=invariants, deadlock=False)
+
+
+def x03(ck, replay=None):
+    thorough = ck.tier == 'thorough'
+    inv = ['OneLivePerName', 'LiveIsListed', 'ListedIsReferenced', 'SizeHonoured']
+    ck.l1('SharedPools/registry invariants', 'SharedPools', sp_cfg(inv, maxobj=4 if thorough else 3), may_skip=('Next',))
+    for goal in ('Trap_Replaced', 'Trap_Refused'):
+        ck.trap(goal, 'SharedPools', sp_cfg([goal]))
+    behs = simulate('SharedPools', sp_cfg([], names=('x', 'y', 'z'), maxobj=8, maxrefs=3), num=1500 if thorough else 200, depth=30,
+                    seed=ck.seed * 7919 + 31)
+    items = [{'id': k, 'beh': [[a, st] for a, st in b]} for k, b in enumerate(behs) if len(b) > 1]
+    out = ck.run_binder('sharedpools', items, timeout=600, extra={'detsched': False})
+    _report(ck, out, items, 'TLC behaviours replayed on the real get_shared_thread_pool registry')
+    ck.sample({'kind': 'replayed_history', 'acts': [[st['act']['name'], st['act']['n'], st['act']['m'], st['act']['o'],
+                                                     st['act']['ret']] for a, st in items[0]['beh'][1:]]})
+    ck.assumptions += ['CPython reference counting: an executor without references is collected at once (gc.collect() after every '
+                       'drop); thread pools only (the process-pool registry has the same code shape)']
+    ck.finish_rc = ck.finish(rule='every request returns the executor the model names (identity) or raises ValueError; registry '
+                             'contents, lifetime, max_workers and shutdown flag of every executor as in the model state')
